@@ -45,32 +45,37 @@ def serDict (k : Kind) (v : Val) : Val :=
   | .spSep, .strs l => .str (joinSp l)          -- sp_sep_list_serializer joins in every format
   | _, v => v
 
-/-- `from_dict` / `_add_value` for one parameter: `none` = the parameter is dropped,
-    `some none` = exception, `some (some v)` = stored -/
+/-- `val in ["", [""]]`: skipped by `from_dict` -/
+def blank : Val → Bool
+  | .str [] => true
+  | .strs [[]] => true
+  | .strs [] => true            -- `_add_value`: an empty list is not stored (null not allowed), whatever the slot
+  | _ => false
+
+/-- `_add_value`: `none` = not stored, `some none` = exception, `some (some v)` = stored -/
+def addValue : Kind → Val → Option (Option Val)
+  | .str, .str s => some (some (.str s))
+  | .str, .opaque t => some (some (.opaque t))
+  | .str, _ => some none                       -- wrong type for a str slot
+  | .int, .int n => some (some (.int n))
+  | .int, .str s =>                            -- int("12")
+    if s.all LV.isDig ∧ ¬ s.isEmpty then some (some (.int (s.foldl (fun a c => a * 10 + LV.dval c) 0))) else some none
+  | .int, _ => some none
+  | .bool, .bool b => some (some (.bool b))
+  | .bool, _ => some none
+  | .listStr, .strs [] => none
+  | .listStr, .strs l => some (some (.strs l))
+  | .listStr, .str s => some (some (.strs [s]))         -- list_deserializer(str, "dict") = [str]
+  | .listStr, _ => some none
+  | .spSep, .strs [] => none
+  | .spSep, .strs l => some (some (.strs l))
+  | .spSep, .str s => some (some (.strs (splitSp s)))   -- sp_sep_list_deserializer(str)
+  | .spSep, _ => some none
+  | .other, v => some (some v)
+
+/-- `from_dict` for one parameter -/
 def deserDict (k : Kind) (w : Val) : Option (Option Val) :=
-  match w with
-  | .str [] => none                              -- `val in ["", [""]]`: skipped
-  | .strs [[]] => none
-  | _ =>
-    match k, w with
-    | .str, .str s => some (some (.str s))
-    | .str, .opaque t => some (some (.opaque t))
-    | .str, _ => some none                       -- wrong type for a str slot
-    | .int, .int n => some (some (.int n))
-    | .int, .str s =>                            -- int("12")
-      if s.all LV.isDig ∧ ¬ s.isEmpty then some (some (.int (s.foldl (fun a c => a * 10 + LV.dval c) 0))) else some none
-    | .int, _ => some none
-    | .bool, .bool b => some (some (.bool b))
-    | .bool, _ => some none
-    | .listStr, .strs [] => none                 -- empty list, null not allowed: not stored
-    | .listStr, .strs l => some (some (.strs l))
-    | .listStr, .str s => some (some (.strs [s]))         -- list_deserializer(str, "dict") = [str]
-    | .listStr, _ => some none
-    | .spSep, .strs [] => none
-    | .spSep, .strs l => some (some (.strs l))
-    | .spSep, .str s => some (some (.strs (splitSp s)))   -- sp_sep_list_deserializer(str)
-    | .spSep, _ => some none
-    | .other, v => some (some v)
+  if blank w then none else addValue k w
 
 def trueTxt : Bytes := [84, 114, 117, 101]        -- "True"
 def falseTxt : Bytes := [70, 97, 108, 115, 101]   -- "False"
